@@ -1406,6 +1406,24 @@ class SDT(LDT):
                 else:
                     out.append(x if isinstance(x, Spl) else Spl(x))
             return out
+        if isinstance(op, ast.Add):
+            # text concatenation of joined line sequences and literals: ''.join(seq) + 'lit'  ==  ''.join([*seq, 'lit'])
+            def _joined(x):
+                return isinstance(x, CallSym) and x.meth == "join" and x.recv == "" and len(x.args) == 1
+            if (_joined(l) and (_joined(r) or isinstance(r, str))) or (_joined(r) and isinstance(l, str)):
+                parts_: list = []
+                for x in (l, r):
+                    if isinstance(x, str):
+                        if x:
+                            parts_.append(x)
+                    elif isinstance(x.args[0], (list, tuple)):
+                        parts_.extend(x.args[0])
+                    else:
+                        parts_.append(Spl(x.args[0]))
+                return CallSym(f"''.join({show(parts_)[:120]})", None, "", "join", (parts_,), ())
+            if (isinstance(l, str) and isinstance(r, Sym)) or (isinstance(r, str) and isinstance(l, Sym)):
+                # text concatenation with an uninterpreted text: keep the structure (a term, not a flat name)
+                return CallSym(f"{show(l)[:100]} + {show(r)[:100]}", None, None, "+", (l, r), ())
         if isinstance(op, (ast.Mult, ast.Div)) and (isinstance(l, Sym) or isinstance(r, Sym)) and not isinstance(l, (str, list, tuple)) and not isinstance(r, (str, list, tuple)):
             a, b = self.mono_of(l), self.mono_of(r)
             if a is not None and b is not None and not (isinstance(op, ast.Div) and b[0] == 0):
@@ -1737,6 +1755,7 @@ class AssembleSummary:
         self.seen_classes: set = set()
         self.gaps: list[str] = []
         self.seps: list = []
+        self.char_strips: set = set()
 
     # ---- atoms
     def seq_atoms(self, row):
@@ -1830,6 +1849,13 @@ class AssembleSummary:
         if isinstance(content, (list, tuple)):
             out = []
             for x in content:
+                if isinstance(x, Star):
+                    sub = self.flatten(list(x.items), meth)
+                    out.append(Star(x.fam, x.lo, x.hi, sub, x.order, x.cond, x.loop) if len(sub) != len(x.items) or any(a is not b for a, b in zip(sub, x.items)) else x)
+                    continue
+                if isinstance(x, CallSym) and x.meth == "join" and x.recv == "" and len(x.args) == 1:
+                    out.extend(self.flatten(x, "writelines"))           # one text item that is itself a concatenation of lines
+                    continue
                 if isinstance(x, Spl):
                     t = self.dt.concrete(x.term) if isinstance(x.term, Sym) else x.term
                     if isinstance(t, (list, tuple)):
@@ -2133,6 +2159,13 @@ def _judge_piece(ctx: Ctx, sm: AssembleSummary, row, cls, elem_kind, items, desc
     reads = [p for p in sparts(base) if isinstance(p, CallSym) and (p.meth in READ_CALLS or p.meth == "open")]
     if not reads:
         raise _Gap(f"{label}: `{path_of(base)[:80]}` is not recognisably read from the input")
+    if not (isinstance(base, CallSym) and base.meth in READ_CALLS | {"list", "tuple", "copy"}):
+        for q in sparts(base):
+            if isinstance(q, CallSym) and q.meth in ("rstrip", "strip") and len(q.args) == 1 and isinstance(q.args[0], str) and "}" in q.args[0] \
+                    and any(isinstance(z, CallSym) and z.meth == "join" for z in sparts(q.recv)):
+                sm.char_strips.add((q.args[0], last))             # judged against the writers' document tails in R17.1
+        # the outermost operation must be the read itself: anything built on top of it (a join, a helper call, ...) is not a line list
+        raise _Gap(f"{label}: the written value `{path_of(base)[:80]}` is derived from the input's lines by an operation the rule does not interpret")
     bp = path_of(base)
 
     def known(k) -> bool:
@@ -2300,7 +2333,7 @@ def line_heads(sh, start: set, n: int, budget: list):
     return heads, end
 
 
-def r17_1(ctx: Ctx, markers: set, offsets: set) -> None:
+def r17_1(ctx: Ctx, markers: set, offsets: set, char_strips=()) -> None:
     """the literal preamble the encoders write, against the marker / offset the reader uses"""
     pm = ctx.pm
     it = make_interp(pm)
@@ -2350,6 +2383,19 @@ def r17_1(ctx: Ctx, markers: set, offsets: set) -> None:
                 ctx.violation("R17.1", path, "font-table closing line carries content", fi.where(),
                               f"{path}: the line that closes the font table can continue with other content ({tail_desc}); a line-based reader drops or keeps that whole line "
                               "for every input but the first")
+            for chars, on_last in sorted(char_strips):
+                # the reader strips trailing CHARACTERS of the joined text instead of dropping the closing LINE: what precedes the closing line must not end in one of them
+                for t in sorted(S.tails(a, 12)):
+                    if not t.endswith("}"):
+                        continue
+                    before = t[:-1].rstrip("\n")
+                    eaten = len(before) - len(before.rstrip(chars))
+                    ctx.instance("R17.1", fi.where(), f"{path}: document tail {t!r}: rstrip({chars!r}) removes {eaten} character(s) beyond the closing line")
+                    if eaten > 0 and "\0" not in before[-(eaten + 1):]:
+                        ctx.violation("R17.1", path, f"rstrip({chars!r}) eats content", rfi.where(),
+                                      f"{path}: assemble_rtf removes the closing brace of a non-last input by stripping the characters {chars!r} from the end of its text; a document "
+                                      f"ends in {t!r}, so {eaten} further character(s) of the content (closing braces of the last group) are removed too: the assembled file is not well-formed")
+                        break
             tails = S.tails(a, 3)
             bad = [t for t in tails if not t.endswith("\n}")]
             ctx.instance("R17.1", fi.where(), f"{path}: document tails {sorted(tails)}")
@@ -2572,5 +2618,5 @@ def check(ctx: Ctx) -> None:
     ctx.undecided("I/O errors other than a missing input; interplay of more than one loop iteration beyond the generic inductive step")
     r17_2_content_skip(ctx)
     sm = r17_2(ctx)
-    r17_1(ctx, sm.markers if sm else set(), sm.offsets if sm else set())
+    r17_1(ctx, sm.markers if sm else set(), sm.offsets if sm else set(), sm.char_strips if sm else ())
     r17_3(ctx)
